@@ -167,7 +167,14 @@ pub struct EncSpec {
 }
 
 pub fn gen_password(r: &mut Rng) -> String {
-    match r.below(7) {
+    match r.below(11) {
+        // longer than 32 bytes with a multi-byte character straddling byte 32 (revisions 2-4 use the
+        // first 32 BYTES of the password)
+        7 => format!("a{}", "\u{e9}".repeat(20)),
+        8 => "\u{65e5}\u{672c}\u{8a9e}".repeat(4),
+        // exactly 32 bytes, and 33
+        9 => "0123456789abcdef0123456789abcdef".into(),
+        10 => "0123456789abcdef0123456789abcdefX".into(),
         0 => String::new(),
         1 => "user".into(),
         2 => "pässwörd-ñ-日本".into(),
@@ -205,7 +212,8 @@ pub fn gen_program(r: &mut Rng, o: &GenProgOpts) -> Program {
         ops.push(DocOp::Info {
             title: if r.chance(2, 3) { Some(gen_text(r, o.tricky_text)) } else { None },
             author: if r.chance(1, 2) { Some(gen_text(r, o.tricky_text)) } else { None },
-            subject: if r.chance(1, 3) { Some(gen_text(r, o.tricky_text)) } else { None },
+            // (an empty string is a legal value and a classic edge for per-string encryption)
+            subject: if r.chance(1, 3) { Some(if r.chance(1, 4) { String::new() } else { gen_text(r, o.tricky_text) }) } else { None },
             keywords: if r.chance(1, 3) { Some(gen_text(r, false)) } else { None },
         });
     }
@@ -308,10 +316,10 @@ pub fn gen_program(r: &mut Rng, o: &GenProgOpts) -> Program {
                     },
                     3 => DocOp::FormX { name: format!("Fm{}", rich_n), w: r2(10.0 + r.below(90) as f64), h: r2(10.0 + r.below(90) as f64) },
                     4 if r.chance(1, 2) => DocOp::CustomText { size: *r.pick(&[9.0, 12.0, 18.0]), x, y, text: format!("{} \u{e9}\u{f1} {}", gen_text(r, false), r.below(1000)) },
-                    4 => DocOp::Note { x, y, contents: gen_text(r, o.tricky_text) },
+                    4 => DocOp::Note { x, y, contents: if r.chance(1, 8) { String::new() } else { gen_text(r, o.tricky_text) } },
                     _ => DocOp::Field {
                         name: if o.tricky_names && r.chance(1, 2) { format!("{}.f{}_{}", TRICKY_NAMES[r.usize_below(TRICKY_NAMES.len())], rich_n, j) } else { format!("field_{}_{}", rich_n, j) },
-                        value: gen_text(r, o.tricky_text),
+                        value: if r.chance(1, 8) { String::new() } else { gen_text(r, o.tricky_text) },
                         kind: r.below(2) as u8,
                         x,
                         y,
